@@ -239,7 +239,9 @@ BuildStep == Normalise \/ MakeModel \/ MakeItems \/ Assemble
 Built == pc = "done"
 (* nlocs = NormalizedLocs(ds.axes, ds.srcs) by Normalise; the invariants read the variable *)
 InvMasterReproduced == Built => MasterReproducedAt(nlocs, ds.srcs, vf)
-InvAxisMapping == Built => AxisMapping(ds.axes, vf, RZero)
+(* fvar and avar are functions of the axes alone (Assemble): checked once per axis combination, on the
+   designspace that has only the default master (every axis combination has one) *)
+InvAxisMapping == (Built /\ Len(ds.srcs) = 1) => AxisMapping(ds.axes, vf, RZero)
 InvSparseOK == Built => SparseOmittedAt(nlocs, ds.srcs, vf, RZero) /\ SparseInterpolates(nlocs, order, ds.srcs, vf)
 (* the model order starts with the default master and carries every source exactly once *)
 InvOrder == pc \in {"items", "assemble", "done"} =>
